@@ -81,8 +81,15 @@ Viol(e, S, S2, ord) ==
   (IF MapSem(e, S, S2, ord) THEN {} ELSE {"MapSem"}) \cup (IF EnumExact(e, S, S2, ord) THEN {} ELSE {"EnumExact"})
   \cup (IF LockDelta(e, S, S2) THEN {} ELSE {"LockDelta"}) \cup (IF GetPost(e, S, S2) THEN {} ELSE {"GetPost"})
 
+LkOf(e, S, S2) ==
+  LET rmv == IF e.op \in {"zenum", "enum"} THEN Cardinality(e.rm \cap RangeOf(e.vis)) ELSE 0
+      nzs == CASE e.op = "zenum" -> 1 [] e.op = "enum" -> Cardinality(EnumZones(S, e.stop)) [] e.op = "destroy" -> NZ [] OTHER -> 0
+      e1 == IF e.op \in {"rm", "elock", "eunlock"} THEN e.e ELSE 1
+  IN LockOps(S, e.op, IF e.op \in {"get", "add"} THEN e.fl ELSE 0, e.op = "get" /\ e.rc = 0, S.alive /\ S.ez[e1] # NoZone, rmv, nzs)
 Step(e, S2, ord2) ==
-  /\ hb' = S2 /\ order' = ord2 /\ ev' = (IF Emit THEN e ELSE << >>)
+  /\ hb' = S2 /\ order' = ord2
+  /\ ev' = (IF Emit THEN [x \in DOMAIN e \cup {"lk", "ul"} |-> IF x = "lk" THEN LkOf(e, hb, S2)[1] ELSE IF x = "ul" THEN LkOf(e, hb, S2)[2] ELSE e[x]]
+            ELSE << >>)
   /\ bad' = bad \cup Viol(e, hb, S2, order)
 
 Init == hb = New(MT, NZ, KeySeq) /\ ev = (IF Emit THEN NewEv ELSE << >>) /\ order = << >> /\ bad = {}
@@ -163,11 +170,27 @@ Do(c) ==
     [] c.op = "enum" -> DoEnum(c.t, c.b, c.c)
     [] c.op = "destroy" -> DoDestroy(c.t)
     [] c.op = "new" -> DoNew
-OpNames == {"get", "add", "rm", "zlock", "zunlock", "elock", "eunlock", "zenum", "enum", "destroy", "new"}
-EnabledCalls(o) == {c \in CallsOf(o) : ENABLED Do(c)}
+OpBag == << "get", "get", "get", "add", "add", "add", "add", "rm", "rm", "zlock", "zunlock", "zunlock", "elock", "eunlock",
+            "zenum", "zenum", "enum", "enum", "destroy", "new" >>
+Gd(c) ==      \* enabling condition of Do(c), without computing the postconditions
+  CASE c.op = "new" -> ~hb.alive
+    [] OTHER ->
+       hb.alive /\
+       CASE c.op = "get" -> (GetNeedsLock(c.b) => CanLock(hb, c.t, ZoneOfKey(hb, c.a))) /\ DepOK(Get(hb, c.t, c.a, c.b).S)
+         [] c.op = "add" -> /\ hb.ez[c.a] = NoZone
+                            /\ (~Has(c.b, ADD_NO_LOCK) => CanLock(hb, c.t, AddZone(hb, c.a, c.c)))
+                            /\ DepOK(Add(hb, c.t, c.a, c.b, c.c))
+         [] c.op = "rm" -> (hb.ez[c.a] # NoZone => CanLock(hb, c.t, hb.ez[c.a]))
+         [] c.op = "zlock" -> CanLock(hb, c.t, c.a) /\ hb.dep[c.a] < MaxDep
+         [] c.op = "elock" -> (hb.ez[c.a] # NoZone => CanLock(hb, c.t, hb.ez[c.a]) /\ hb.dep[hb.ez[c.a]] < MaxDep)
+         [] c.op = "zenum" -> CanLock(hb, c.t, c.a)
+         [] c.op = "enum" -> \A z \in EnumZones(hb, c.c) : CanLock(hb, c.t, z)
+         [] c.op = "destroy" -> \A z \in Zones : hb.own[z] = None
+         [] OTHER -> TRUE
+EnabledCalls(o) == {c \in CallsOf(o) : Gd(c)}
 SimNext ==
-  \E o \in {RandomElement({x \in OpNames : EnabledCalls(x) # {}})} :
-    \E c \in {RandomElement(EnabledCalls(o))} : Do(c)
+  \E i \in {RandomElement({x \in 1..Len(OpBag) : EnabledCalls(OpBag[x]) # {}})} :
+    \E c \in {RandomElement(EnabledCalls(OpBag[i]))} : Do(c)
 SimSpec == Init /\ [][SimNext]_vars
 
 (* ---------------- invariants *)
